@@ -1,7 +1,7 @@
 #!/bin/bash
 # For every seeded change: apply to a scratch copy and run the quick check of its own property at several VERIF_SEED values.
 # usage: tools/seed_matrix.sh [seeds...]   -> seeded/MATRIX.md
-seeds=${@:-1 2 3}
+seeds=${@:-2 3}
 out=/verif/seeded/MATRIX.md
 echo "# Seeded changes x VERIF_SEED (quick tier of the seed's own property; 1 = VIOLATION reported)" > $out
 echo "" >> $out; echo "| seed | $(echo $seeds | sed 's/ / | /g') |" >> $out; echo "|---|$(for s in $seeds; do printf -- '---|'; done)" >> $out
